@@ -198,6 +198,26 @@ Theorem spec_is_model : forall (F : Type) (q : value F) l n,
   (forall m, q = VObj m -> NoDup (map fst m)) -> spec q = Some l -> run (S n) q = Ok l.
 Proof. intros F. exact spec_sound. Qed.
 
+(* plugin chains (stream `chain` families): for EVERY chain of grid search plugins and stub
+   plugins that add grid sections to some queries, i.e. for multi-element query states in which
+   any subset of the elements expands, json_array_op + flatten replace every query by its
+   specified expansion in place: the chain specification of the S line is the model *)
+Theorem chain_spec_is_model : forall (F : Type) (stages : list (@stage F)) (q : value F) l,
+  (forall m, q = VObj m -> NoDup (map fst m)) -> spec_stages stages q = Some l ->
+  run_stages stages q = Ok l.
+Proof. intros F. exact spec_stages_sound. Qed.
+
+(* one grid stage on a state of well-formed queries (unique keys), whichever of them expand *)
+Theorem grid_stage_on_any_state : forall (F : Type) (qs l : list (value F)),
+  Forall wfq qs -> flat_map_opt spec qs = Some l ->
+  array_op process (VArr qs) = Ok (VArr l) /\ Forall wfq l.
+Proof.
+  intros F qs l H Hs. split; [exact (array_op_grid qs l H Hs) | exact (flat_map_opt_wf qs l H Hs)].
+Qed.
+
+Theorem run_is_a_chain : forall (F : Type) n (q : value F), run n q = run_stages (repeat SGrid n) q.
+Proof. intros F. exact run_is_run_stages. Qed.
+
 (* ================= statement pins ================= *)
 
 Check multiset_fuel_sufficient : forall (A : Type) (sets : list (list A)) fuel,
@@ -218,6 +238,8 @@ Check @no_grid_key : forall (F : Type) (m sec : obj F), NoDup (map fst m) -> men
 Check passthrough_without_section : forall F : Type,
   (forall q : value F, jget q grid_key = None -> process q = Ok q)
   /\ (forall (m : obj F) n, oget m grid_key = None -> run n (VObj m) = Ok [VObj m]).
+Check chain_spec_is_model : forall (F : Type) (stages : list (@stage F)) (q : value F) l,
+  (forall m, q = VObj m -> NoDup (map fst m)) -> spec_stages stages q = Some l -> run_stages stages q = Ok l.
 Check never_panics_or_hangs : forall (F : Type) n (q : value F), crashes (run n q) = false.
 
 (* ================= non-vacuity ================= *)
@@ -239,6 +261,16 @@ Proof.
   repeat split; try reflexivity.
   eexists. split; [vm_compute; reflexivity|]. split; reflexivity.
 Qed.
+
+(* a chain in which the SECOND of two queries is the one that expands at the second grid stage *)
+Example c17_chain_nonvacuous : forall F : Type,
+  let q : value F := VObj [("id", VInt 2); (grid_key, VObj [("vehicle", VArr [VStr "ice"; VStr "ev"])])] in
+  let chain := [SGrid; SAdd (PStrEq "vehicle" "ev") (VObj [("soc", VArr [VInt 20; VInt 80])]); SGrid] in
+  spec_stages chain q = Some [VObj [("id", VInt 2); ("vehicle", VStr "ice")];
+                              VObj [("id", VInt 2); ("vehicle", VStr "ev"); ("soc", VInt 20)];
+                              VObj [("id", VInt 2); ("vehicle", VStr "ev"); ("soc", VInt 80)]]
+  /\ run_stages chain q = spec_stages_result chain q.
+Proof. intros F q chain. split; reflexivity. Qed.
 
 (* the counter really carries: from position (1,0,2) of sizes (2,1,3) ... *)
 Example c17_step_nonvacuous :
@@ -264,5 +296,9 @@ Print Assumptions section_without_array_fields.
 Print Assumptions rejected_sections.
 Print Assumptions never_panics_or_hangs.
 Print Assumptions spec_is_model.
+Print Assumptions chain_spec_is_model.
+Print Assumptions grid_stage_on_any_state.
+Print Assumptions run_is_a_chain.
 Print Assumptions c17_nonvacuous.
 Print Assumptions c17_step_nonvacuous.
+Print Assumptions c17_chain_nonvacuous.
